@@ -628,10 +628,21 @@ func (d *ColumnDetector) createColumnsFromGaps(fragments []text.TextFragment, ga
 		// Find which column this fragment belongs to
 		fragCenter := f.X + f.Width/2
 
+		placed := false
 		for i := range columns {
 			if fragCenter >= boundaries[i].left && fragCenter < boundaries[i].right {
 				columns[i].Fragments = append(columns[i].Fragments, f)
+				placed = true
 				break
+			}
+		}
+		if !placed {
+			// On or outside the outer boundaries (a zero-width fragment at the right
+			// edge): the fragment belongs to the nearest outer column
+			if fragCenter < boundaries[0].left {
+				columns[0].Fragments = append(columns[0].Fragments, f)
+			} else {
+				columns[len(columns)-1].Fragments = append(columns[len(columns)-1].Fragments, f)
 			}
 		}
 	}
